@@ -6,6 +6,7 @@ package main
 import (
 	"fmt"
 	"os"
+	"runtime/debug"
 
 	"verif/internal/ev"
 )
@@ -25,6 +26,7 @@ func register(id, level string, fn checkFn) {
 }
 
 func main() {
+	debug.SetPanicOnFault(true)
 	if len(os.Args) < 3 {
 		fmt.Fprintln(os.Stderr, "usage: zcheck <ID> <quick|thorough> [--replay path]")
 		os.Exit(2)
